@@ -74,7 +74,10 @@ def run_ops(rep, tier):
     unops = [("neg", op.neg), ("abs", abs), ("T", lambda a: a.T), ("shape", lambda a: a.shape), ("ndim", lambda a: a.ndim), ("size", lambda a: a.size), ("dtype", lambda a: a.dtype), ("len", len),
              ("getitem", lambda a: a[1, ::-1]), ("iter", lambda a: [r for r in a][1]), ("bool-of-element", lambda a: bool(a[0, 0] > 0)), ("float()", lambda a: float(a[0, 0]) if not isbox(a) else float(getval(a[0, 0]))),
              ("sum-method", lambda a: a.sum(axis=0)), ("mean-method", lambda a: a.mean()), ("reshape-method", lambda a: a.reshape(3, 2)), ("astype", lambda a: a.astype(onp.float32)),
-             ("ravel", lambda a: a.ravel()), ("clip-method", lambda a: a.clip(-1, 1)), ("max-method", lambda a: a.max(axis=1)), ("argmax", lambda a: anp.argmax(a, axis=1)), ("round", lambda a: anp.round(a))]
+             ("ravel", lambda a: a.ravel()), ("clip-method", lambda a: a.clip(-1, 1)), ("max-method", lambda a: a.max(axis=1)), ("argmax", lambda a: anp.argmax(a, axis=1)), ("round", lambda a: anp.round(a)),
+             # truthiness is the truthiness of the VALUE (0-d and one-element arrays), so `if w:` / `while not w:` take the branch the plain call takes
+             ("bool(zero element)", lambda a: bool(a[0, 0] * 0.0)), ("bool(nonzero element)", lambda a: bool(a[0, 1])), ("bool(1-element zero array)", lambda a: bool(a[0:1, 0] * 0.0)),
+             ("bool(1-element nonzero array)", lambda a: bool(a[0:1, 1])), ("not 1-element zero array", lambda a: not (a[0:1, 0] - 0.5)), ("if 1x1 zero array", lambda a: (1 if (a[0:1, 0:1] - 0.5) else 2))]
     rec = []
 
     def probe(x):
@@ -100,7 +103,7 @@ def run_ops(rep, tier):
                 continue
             gv = getval(r)
             ok = (onp.array_equal(onp.asarray(gv), onp.asarray(e)) and type(gv) is type(e)) if not isinstance(e, (tuple, int, bool, float, onp.dtype)) else gv == e
-            if nm in ("shape", "ndim", "size", "dtype", "len", "bool-of-element", "argmax"):
+            if nm in ("shape", "ndim", "size", "dtype", "len", "bool-of-element", "argmax") or nm.startswith(("bool(", "not ", "if ")):
                 ok = ok and not isbox(r)
             rec.append((nm, bool(ok), f"{nm} -> {gv!r} vs {e!r}"))
         return anp.sum(x * x)
